@@ -806,7 +806,7 @@ impl BuiltInFunction {
                     args[0].as_list(borrowed_heap)?.clone()
                 };
                 let borrowed_heap = heap.borrow();
-                list.sort_by(|a, b| {
+                stable_sort_by(&mut list, &mut |a, b| {
                     a.compare(b, &borrowed_heap)
                         .unwrap_or(None)
                         .unwrap_or(std::cmp::Ordering::Equal)
@@ -1499,7 +1499,7 @@ impl BuiltInFunction {
                     args[0].as_list(borrowed_heap)?.clone()
                 };
 
-                list.sort_by(|a, b| {
+                stable_sort_by(&mut list, &mut |a, b| {
                     // Only look up the function once, not twice
                     let func_def = get_function_def(func, &heap.borrow());
 
@@ -1876,6 +1876,35 @@ impl FunctionDef {
             }
         }
     }
+}
+
+/// Stable merge sort. Unlike `slice::sort_by` it accepts comparison functions that are not
+/// total orders: values of different types compare as "equal" to everything, which is not
+/// transitive, and the standard library is allowed to panic when it detects that.
+fn stable_sort_by<T: Copy>(
+    items: &mut Vec<T>,
+    compare: &mut impl FnMut(&T, &T) -> std::cmp::Ordering,
+) {
+    if items.len() < 2 {
+        return;
+    }
+    let mut right = items.split_off(items.len() / 2);
+    stable_sort_by(items, compare);
+    stable_sort_by(&mut right, compare);
+    let left = std::mem::take(items);
+    let (mut i, mut j) = (0, 0);
+    while i < left.len() && j < right.len() {
+        // Take from the right only when it is strictly smaller, to keep the sort stable
+        if compare(&right[j], &left[i]) == std::cmp::Ordering::Less {
+            items.push(right[j]);
+            j += 1;
+        } else {
+            items.push(left[i]);
+            i += 1;
+        }
+    }
+    items.extend_from_slice(&left[i..]);
+    items.extend_from_slice(&right[j..]);
 }
 
 pub fn is_built_in_function(ident: &str) -> bool {
